@@ -146,7 +146,7 @@ def run_property(prop, tier, seed, replay_path=None):
     workdir = tempfile.mkdtemp(prefix="run-%s-" % pid, dir=ensure(os.path.join(BUILD, "run")))
     try:
         driver = build_driver()
-        bins = build_go(pid)
+        bins = build_go(pid, instrument=getattr(prop, "instrument", False))
 
         # ---- 3. cases
         rng = Rng(seed * 1000003 + zlib.crc32(pid.encode()))
